@@ -12,7 +12,7 @@ Print Assumptions C08_first_failure.
 (* a failing patch returns no document: the byte-level result of the model is an error value that
    carries no bytes, at the index of the first failing operation *)
 Theorem C08_error_no_document : forall o indent p1 op p2 doc r st' e,
-  load_doc doc = Ok r -> apply_from o 0 (mkState r 0) p1 = AOk st' -> step o st' op = Err e ->
+  load_doc o doc = Ok r -> apply_from o 0 (mkState r 0) p1 = AOk st' -> step o st' op = Err e ->
   apply_tree o indent (p1 ++ op :: p2) doc = RErr (Some (length p1)) e.
 Proof.
   intros o indent p1 op p2 doc r st' e L A S. unfold apply_tree. rewrite L.
@@ -60,7 +60,7 @@ Print Assumptions C08_all_succeed.
 (* non-vacuity: {"a":[1]}: test /a/0 1, remove /b (absent member: missing), add /c 2 *)
 Example C08_nonvacuous :
   match api_decode (B "[{""op"":""test"",""path"":""/a/0"",""value"":1},{""op"":""remove"",""path"":""/b""},{""op"":""add"",""path"":""/c"",""value"":2}]") with
-  | Some p => api_apply (mkOpts true 0 false false true None) [] p (B "{""a"":[1]}") = RErr (Some 1%nat) EMissing
+  | Some p => api_apply (mkOpts true 0 false false true [] None) [] p (B "{""a"":[1]}") = RErr (Some 1%nat) EMissing
   | None => False
   end.
 Proof. vm_compute. reflexivity. Qed.
